@@ -195,10 +195,13 @@ static std::string finding_class(const Cfg& c) {
   // documented budget, n F eps a >= 4 kappa 10 nm (a/a_WGS84), i.e. n F >= 28 kappa (only strongly prolate ellipsoids, where the
   // isometric latitude gains |e| atan|e| and F grows like its exponential)
   if (c.cls == 1 && c.f < 0) { Cfg c0 = c; c0.ss = 0; c11::Proj P = oracle(c0); if (!P.polar && !P.cyl && c11::fin(P.F) && c11::dbl(fabsq(P.n * P.F)) >= 28 * kappa(c.f)) t += " [class:lcc-prolate-t0nm1]"; }
-  if (c.cls == 0 || !distinct_parallels(c)) return t;
+  if (c.cls == 0) return t;
   double s1, c1, s2, c2; rawsc(c, s1, c1, s2, c2); if (!(std::isfinite(s1) && std::isfinite(s2))) return t;
   { double r = std::hypot(s1, c1); s1 /= r; c1 /= r; r = std::hypot(s2, c2); s2 /= r; c2 /= r; }
-  if (s1 == s2 && c1 == c2) return t;
+  // f >= 0.9 (1/(1 - e^2) >= 100) and a standard parallel within 0.01 degrees of a pole without being the pole: Forward between that
+  // parallel and the pole (radius a difference of nearly equal numbers) is off by far more than the condition number allows, also for one parallel
+  if (c.f >= 0.9 && std::fmin(c1, c2) < 2e-4 && std::fmin(c1, c2) > 0 && (!distinct_parallels(c) || (s1 == s2 && c1 == c2))) t += " [class:oblate-init-accuracy]";
+  if (!distinct_parallels(c) || (s1 == s2 && c1 == c2)) return t;
   double sg = s1 + s2 >= 0 ? 1 : -1; s1 *= sg; s2 *= sg; if (s1 > s2) { std::swap(s1, s2); std::swap(c1, c2); }   // as Init: x = s1 <= y = s2, y >= |x|
   double e2 = e2of(c.f), e = std::sqrt(std::fabs(e2)), e2m = 1 - e2;
   // LCC, e^2 < -1, parallels in opposite hemispheres with |e^2| |sin| >= 1: Deatanhe forms atan of (x - y)/(1 - e^2 x y) with a
@@ -211,9 +214,9 @@ static std::string finding_class(const Cfg& c) {
   // interval between the parallels and converge to another root
   if (c.cls == 2 && c.f >= 0.8 && s1 < 0) t += " [class:albers-oblate-newton-origin]";
   // f >= 0.5 (1/(1 - e^2) >= 4), two distinct parallels: the divided-difference evaluation of the cone constant and of the origin in
-  // Init loses accuracy much faster than the problem's condition number (a parallel within 0.001 degrees of a pole: 1e6 ulp at
-  // f = 0.5; any pair: about 1/(1 - e^2)^2 ulp from f = 0.75 on)
-  if (c.f >= 0.5) t += " [class:oblate-init-accuracy]";
+  // Init loses accuracy much faster than the problem's condition number (any pair: about 1/(1 - e^2)^2 ulp from f = 0.75 on); with a
+  // parallel within 0.01 degrees of a pole (cosine < 2e-4) already from f > 0.1 on (1e6 ulp at f = 0.5)
+  if (c.f >= 0.5 || (c.f > 0.1 && std::fmin(c1, c2) < 2e-4)) t += " [class:oblate-init-accuracy]";
   return t;
 }
 // classes that make the kernel models pointless to run (Init itself is wrong): everything but the Newton-count class
@@ -261,7 +264,7 @@ static Reg r_pt("pt", [](const Args& a) {
     double ox = c11::dbl(w.x), oy = c11::dbl(w.y), oR = std::hypot(ox, oy), ok_ = c11::dbl(w.k);
     if (documented_domain(c)) {
       const Cond cd = cond_pt(c, np, lon0, lat, lon, w);
-      double tol = tol_plane(c, oR, kplane(c, w.kok ? ok_ : k)) + oslack(c, oR, k) + NULP * cd.xy;   // "true distance": at a pole of a non-polar cone the scale is infinite
+      double tol = tol_plane(c, oR, w.kok ? kplane(c, ok_) : std::fmax(kplane(c, k), kplane(c, o.k0()))) + oslack(c, oR, k) + NULP * cd.xy;   // "true distance": at a pole of a non-polar cone the scale is infinite
       // theta = n lambda (k^2 n lambda for Albers) is formed in binary64: 4 ulp of theta displace the point by rho |theta| 4 eps
       // (matters only for an Albers cone with k >> 1, whose image winds around the apex many times)
       if (c.cls != 0 && !P.cyl && !P.polar) { double ya = c11::dbl(c.cls == 1 ? P.kap * P.r0 : P.r0 / P.kap), rho = std::hypot(ox, ya - oy); if (std::isfinite(rho)) tol += 8 * std::numeric_limits<double>::epsilon() * std::fabs(c11::dbl(w.gamma)) * Math::degree() * rho; }
@@ -308,7 +311,7 @@ static Reg r_pt("pt", [](const Args& a) {
     // the displaced point must lie inside the image: the cone covers the sector |theta| < 180 n (k0^2 n for Albers)
     double nn = c.cls == 0 ? 1.0 : std::fabs(std::sin(o.lat0() * Math::degree())) * (c.cls == 2 ? o.k0() * o.k0() : 1.0);
     // (for a cylinder, nn = 0, the image is the strip |lon - lon0| < 180: with a small central scale the displacement can leave it)
-    if (std::fabs(la) < 89.99 && std::isfinite(kk) && (nn == 0 || std::fabs(gg) < 170 * nn) && (c.cls == 0 || std::fabs(Math::AngDiff(lon0, lo)) < 170)) {
+    if (std::fabs(la) < 89.99 && std::isfinite(kk) && (nn == 0 || std::fabs(gg) < 170 * nn) && (c.cls == 0 || nn != 0 || [&] { double xw, yw, gw, kw; o.Fwd(np, lon0, lat, lon0 + 170, xw, yw, gw, kw); return std::fabs(x2) < std::fabs(xw); }())) {
       double x3, y3, g3, k3; o.Fwd(np, lon0, la, lo, x3, y3, g3, k3);
       double dist = std::hypot(x3 - x2, y3 - y2), tol = tol_plane(c, std::hypot(x2, y2), std::fmax(kk, 1 / kk));
       // Reverse returns lat, lon rounded to binary64: half an ulp of 90 or 180 degrees on the ground
